@@ -113,7 +113,7 @@ prop('C03', COMMON +
       'Pending implies in the schedule and a thread asked (TOK-pending)', 'dormant handshake and fetch loop (ORD-C03-dormant, ORD-C10-fetch, TRY)', 'no job dropped or run twice (QD-*, TOK-requeue)', 'blocked sync callers stay registered until they leave and are told on every reschedule (QD-waiters)', 'wakers resume parked queues (PARK-wake)'],
      ['that a woken pool thread is eventually scheduled by the OS', 'quiescence of a whole program'],
      [(RP.tok_leak, None), (RP.pa_rules, {'PA-stuck', 'PA'}), (RP.tok_resched, None), (RP.tok_pending, None), (RP.tok_requeue, None), (RQ.qd_queue, None), (RQ.qd_schedule, None), (RQ.qd_once, None),
-      (RL.try_rule, None), (RO.c03_dormant, None), (RO.c10_fetch, None), (RP.park_wake, None), (RQ.qd_wake_blocked, None), (RP.tr_roles, None), (RP.tr_dead, None), (RQ.qd_run, None), (RO.c10_thread, None), (RO.rs_strength, None, ['SchedulerCore']), (RU.ua_leak, None), (RE.eo, None, ['^SchedulerCore::', '^<SchedulerCore::', '^JobQueue::', '^<JobQueue::', '^Scheduler::schedule_job_desync', '^<Scheduler::schedule_job_desync', '^WakeQueue', '^<WakeQueue', '^WakeThread', '^<WakeThread', '^SchedulerThread::', '^<SchedulerThread::', '^FutureJob::', '^<FutureJob::', 'floor', 'baseline']), (RP.tr_base, None), (RE.eo, None, ['^JobQueue::', '^<JobQueue::', '^Scheduler::schedule_job_desync', '^<Scheduler::schedule_job_desync'])])
+      (RL.try_rule, None), (RO.c03_dormant, None), (RO.c10_fetch, None), (RP.park_wake, None), (RQ.qd_wake_blocked, None), (RP.tr_roles, None), (RP.tr_dead, None), (RQ.qd_run, None), (RO.c10_thread, None), (RO.rs_strength, None, ['SchedulerCore']), (RU.ua_leak, None), (RE.eo, None, ['^SchedulerCore::', '^<SchedulerCore::', '^JobQueue::', '^<JobQueue::', '^Scheduler::schedule_job_desync', '^<Scheduler::schedule_job_desync', '^WakeQueue', '^<WakeQueue', '^WakeThread', '^<WakeThread', '^SchedulerThread::', '^<SchedulerThread::', '^FutureJob::', '^<FutureJob::', 'floor', 'baseline']), (RP.tr_base, None), (RE.eo, None, ['^JobQueue::', '^<JobQueue::', '^Scheduler::schedule_job_desync', '^<Scheduler::schedule_job_desync']), (RO.c08, None, ['result-after-scheduler'])])
 
 prop('C04', COMMON +
      'Decided: the sync strategy is chosen in one critical section and waits only when somebody owns or will wake the queue (TR-defer); the condition-variable handshake of the blocked caller (CV1, CV2); '
@@ -131,7 +131,7 @@ prop('C05', COMMON +
      ['drop queues a final sync job that frees the value (ORD-C05-drop)', 'freed only there; Desync/DataRef not duplicable (UA-free)', 'pointer used only in jobs of the same queue (UA-confine)',
       'final job ordered after queued work: all of C02\'s rules (ORD-C02-append, QD-queue, TR-immediate, TOK-requeue, PA-excl)', 'the final sync waits for its job (UA-wait)', 'pipes cannot schedule on a dead object (ORD-C05-weak)'],
      ['absence of use-after-free on every interleaving as such', '"blocks until" is derived from the C04 rules'],
-     [(RO.c05_drop, None), (RU.ua_free, None), (RU.ua_confine, None), (RO.c05_weak, None), (RU.ua_wait, None), (RE.eo, None, ['^Desync as core::ops::drop::Drop>', '^<Desync as core::ops::drop::Drop>', '^Scheduler::sync', '^<Scheduler::sync']), (RP.tr_base, None, ['^Scheduler::sync', '^<Scheduler::sync'])] + G_ORDER)
+     [(RO.c05_drop, None), (RU.ua_free, None), (RU.ua_confine, None), (RO.c05_weak, None), (RU.ua_wait, None), (RE.eo, None, ['^Desync as core::ops::drop::Drop>', '^<Desync as core::ops::drop::Drop>', '^Scheduler::sync', '^<Scheduler::sync']), (RP.tr_base, None, ['^Scheduler::sync', '^<Scheduler::sync']), (RO.c08, None, ['result-after-scheduler'])] + G_ORDER)
 
 prop('C06', COMMON +
      'Decided: from every parked configuration reachable in the extracted protocol, wakers and claimers alone lead back to a running queue (PA-wake); each waker calls the resume action that matches the parked state it finds, '
@@ -176,7 +176,7 @@ prop('C11', COMMON +
      'end of stream ends it and releases the poll function; the context holds only a Weak target and no closure captures a strong reference (ORD-C05-weak); no guard across awaits, no foreign code under internal locks (AW, BL).',
      ['processing only inside a job of the target; one item at a time, in order (ORD-C11)', 'weak reference only; release on end/dead target (ORD-C05-weak, ORD-C11)', 'no guard across await; no user code under internal locks (AW, BL)'],
      ['arrival patterns and drop points as executions', 'every wake leads to one poll job is derived from the C03 rules + PipeWaker taking its context once'],
-     [(RO.c11, None), (RO.c11_sleep, None), (RO.c05_weak, None), (RO.rs_strength, None, ['PipeWaker']), (RL.aw, None), (RL.bl, None)] + G_EXCL + G_ORDER)
+     [(RO.c11, None), (RO.c11_sleep, None), (RO.c05_weak, None), (RO.rs_strength, None, ['PipeWaker']), (RL.aw, None), (RL.bl, None), (RO.c08, None, ['result-after-scheduler'])] + G_EXCL + G_ORDER)
 
 prop('C12', COMMON +
      'Decided: consumer and back-pressure handshakes register/notify atomically (LW1, LW2 on notify and backpressure_release_notify); the output buffer is appended by the producer only and taken from the front by the consumer only (QD-pending); '
